@@ -7,7 +7,7 @@ use std::{ffi::CStr, sync::Mutex};
 use crate::{imp, GenTlError, GenTlResult};
 
 use super::{
-    bool8_t, copy_info, interface, interface::InterfaceModuleRef, CopyTo, ModuleHandle, GC_ERROR,
+    assert_non_null, bool8_t, copy_info, interface, interface::InterfaceModuleRef, CopyTo, ModuleHandle, GC_ERROR,
     INFO_DATATYPE,
 };
 
@@ -22,6 +22,7 @@ lazy_static::lazy_static! {
 
 gentl_api! {
     pub fn TLOpen(phSystem: *mut TL_HANDLE) -> GenTlResult<()> {
+        assert_non_null(phSystem)?;
         SYSTEM_MODULE.lock().unwrap().open()?;
 
         let handle = Box::new(ModuleHandle::System(SYSTEM_MODULE.as_ref()));
@@ -55,6 +56,8 @@ gentl_api!(
         pBuffer: *mut libc::c_void,
         piSize: *mut libc::size_t,
     ) -> GenTlResult<()> {
+        assert_non_null(piType)?;
+        assert_non_null(piSize)?;
         let handle = unsafe { ModuleHandle::from_raw_manually_drop(hSystem)? };
         let system_handle = handle.system()?;
         let handle_guard = system_handle.lock().unwrap();
@@ -116,6 +119,7 @@ gentl_api! {
         sIfaceID: *mut libc::c_char,
         piSize: *mut libc::size_t,
     ) -> GenTlResult<()> {
+        assert_non_null(piSize)?;
         let handle = unsafe { ModuleHandle::from_raw_manually_drop(hSystem)? };
         let system_handle = handle.system()?;
         let handle_guard = system_handle.lock().unwrap();
@@ -138,6 +142,9 @@ gentl_api! {
         pBuffer: *mut libc::c_void,
         piSize: *mut libc::size_t,
     ) -> GenTlResult<()> {
+        assert_non_null(sIfaceID)?;
+        assert_non_null(piType)?;
+        assert_non_null(piSize)?;
         let handle = unsafe { ModuleHandle::from_raw_manually_drop(hSystem)? };
         let system_handle = handle.system()?;
         let handle_guard = system_handle.lock().unwrap();
@@ -154,6 +161,7 @@ gentl_api! {
 
 gentl_api! {
     pub fn TLGetNumInterfaces(hSystem: TL_HANDLE, piNumIfaces: *mut u32) -> GenTlResult<()> {
+        assert_non_null(piNumIfaces)?;
         let handle = unsafe { ModuleHandle::from_raw_manually_drop(hSystem)? };
         let system_handle = handle.system()?;
         let handle_guard = system_handle.lock().unwrap();
@@ -172,6 +180,8 @@ gentl_api! {
         sIfaceID: *const libc::c_char,
         phIface: *mut super::interface::IF_HANDLE,
     ) -> GenTlResult<()> {
+        assert_non_null(sIfaceID)?;
+        assert_non_null(phIface)?;
         let handle = unsafe { ModuleHandle::from_raw_manually_drop(hSystem)? };
         let system_handle = handle.system()?;
         let handle_guard = system_handle.lock().unwrap();
@@ -196,6 +206,7 @@ gentl_api! {
         pbChanged: *mut bool8_t,
         _iTimeout: u64,
     ) -> GenTlResult<()> {
+        assert_non_null(pbChanged)?;
         let handle = unsafe { ModuleHandle::from_raw_manually_drop(hSystem)? };
         let system_handle = handle.system()?;
         let handle_guard = system_handle.lock().unwrap();
